@@ -148,6 +148,11 @@ impl<C: Suite> Interp<C> {
                     ("u16mul", Some(n)) if !C::IS_TOY && n * 4369 <= 65535 => {
                         Identifier::<C>::try_from((n * 4369) as u16).map_err(|_| ScriptError("bad u16 id".into()))?
                     }
+                    // labels beyond 15 continue above the u16 range, so that the order of the identifiers stays
+                    // the order of their labels
+                    ("u16mul", Some(n)) if !C::IS_TOY => {
+                        Identifier::<C>::new(scalar_from_u64::<C>(65535 + n)).map_err(|_| ScriptError("zero id".into()))?
+                    }
                     ("derive", Some(n)) if !C::IS_TOY => Identifier::<C>::derive(format!("participant-{n}").as_bytes())
                         .map_err(|_| ScriptError("derive failed".into()))?,
                     ("big", Some(n)) if !C::IS_TOY => {
@@ -156,6 +161,20 @@ impl<C: Suite> Interp<C> {
                             s = s + s;
                         }
                         s = s + scalar_from_u64::<C>(7);
+                        Identifier::<C>::new(s).map_err(|_| ScriptError("zero id".into()))?
+                    }
+                    // "hi": identifiers that share their low bytes and differ in the most significant byte of the
+                    // encoding only: (n mod 2 + 1) + n * 2^(8*(L-1)), L = number of significant bytes
+                    ("hi", Some(n)) if !C::IS_TOY => {
+                        let len = <<C::Group as Group>::Field as Field>::serialize(&<<C::Group as Group>::Field as Field>::zero()).as_ref().len();
+                        let sig = if C::NAME.contains("ed448") { 56 } else { len };
+                        // (labels beyond 15 would leave the range of the top byte: they continue above 15 * 2^(8(L-1)),
+                        // which keeps the order of the identifiers the order of their labels)
+                        let mut s = scalar_from_u64::<C>(n.min(15));
+                        for _ in 0..8 * (sig - 1) {
+                            s = s + s;
+                        }
+                        s = s + scalar_from_u64::<C>(if n <= 15 { n % 2 + 1 } else { n });
                         Identifier::<C>::new(s).map_err(|_| ScriptError("zero id".into()))?
                     }
                     _ => {
@@ -406,6 +425,14 @@ impl<C: Suite> Interp<C> {
                 let t = st["t"].as_u64().unwrap_or(0) as u16;
                 let custom = st.get("custom").and_then(|x| x.as_bool()).unwrap_or(false);
                 let ids = if custom { self.ids_list(st.get("ids"))? } else { vec![] };
+                if !custom && !C::IS_TOY {
+                    // the library will assign the default identifiers 1..n: make their labels known
+                    // (such scenarios run with plain identifiers, see cmd_run)
+                    let nn = st["n"].as_u64().unwrap_or(0).min(4096);
+                    for k in 1..=nn {
+                        let _ = self.ident(&json!(k));
+                    }
+                }
                 let idl = if custom { IdentifierList::Custom(&ids) } else { IdentifierList::Default };
                 let r = match st.get("key") {
                     Some(k) if !k.is_null() => {
@@ -578,10 +605,17 @@ impl<C: Suite> Interp<C> {
                 let zero = F::<C>::zero();
                 let h = zero - non.hiding().to_scalar();
                 let b = zero - non.binding().to_scalar();
-                let mut v = serde_json::to_value(&non).map_err(|_| ScriptError("nonces to json".into()))?;
+                // (a zero nonce has an identity commitment, which has no encoding: a coincidence of a small field)
+                let mut v = match serde_json::to_value(&non) {
+                    Ok(v) => v,
+                    Err(_) => return Ok(json!({"ok": false, "stage": "ser"})),
+                };
                 v["hiding"] = json!(hex(F::<C>::serialize(&h).as_ref()));
                 v["binding"] = json!(hex(F::<C>::serialize(&b).as_ref()));
-                let n: SigningNonces<C> = serde_json::from_value(v).map_err(|_| ScriptError("nonces from json".into()))?;
+                let n: SigningNonces<C> = match serde_json::from_value(v) {
+                    Ok(n) => n,
+                    Err(_) => return Ok(json!({"ok": false, "stage": "de"})),
+                };
                 self.put(&st["out"], Obj::Non(n))?;
                 Ok(json!({"ok": true}))
             }
@@ -683,6 +717,9 @@ impl<C: Suite> Interp<C> {
                         let mut v = self.err_j(&e);
                         if let Some(b) = structural_same {
                             v["structural_same"] = json!(b);
+                        }
+                        if v["err"].as_str() == Some("IncorrectNumberOfShares") {
+                            v["refused_on_count"] = json!(true);
                         }
                         Ok(v)
                     }
